@@ -11,8 +11,8 @@ def register(prop, J):
               "entity key and q/ids/action together; distinct by (tree, late registrations, handler, mount, filters, request)",
          exhaustive=True,
          jobs=[
-             J("route-v2", "v2", "routeprops", RUN, checks=(24000, 1600000), shards=(8, 16), timeout=(300, 1500)),
-             J("route-v1", "v1", "routeprops", RUN, checks=(12000, 480000), shards=(8, 16), timeout=(300, 1500)),
+             J("route-v2", "v2", "routeprops", RUN, checks=(24000, 3200000), shards=(8, 16), timeout=(300, 1500)),
+             J("route-v1", "v1", "routeprops", RUN, checks=(12000, 960000), shards=(8, 16), timeout=(300, 1500)),
          ],
          level_text="complete enumeration of a fixed family of resource trees x request product against an independent routing decision "
                     "table (DESIGN Appendix B), and rapid-generated trees / requests with shrinking, in both module generations; every request is "
